@@ -143,7 +143,8 @@ def lead_check(rep, tier):
             q, lead = s["q"], s["lead"]
             cls = q["cls"]
             if cls not in chains:
-                out, ch = impl.classify(lambda: FutureChain(_cls(cls), "%d-01" % years[0], "%d-12" % years[-1]))
+                # the chain lists exactly the model's (year, month) pairs (which months a span lists is pandas' business)
+                out, ch = impl.classify(lambda: FutureChain(contracts=[_cls(cls)(y, m) for (y, m) in reversed(_listed(cls, years))]))
                 if out != "ok":
                     rep.violation("chain_construct", "chain_construct/%s" % cls, "FutureChain(%s, ...) raised %r" % (cls, ch), {"cls": cls})
                     chains[cls] = None
